@@ -54,7 +54,7 @@ class G:
             elif len(self.stack) < depth_limit:
                 v = r.choice(SPECS)
                 self.stack.append(v)
-                out.append("`begin_keywords \"%s\"\n" % v)
+                out.append("`begin_keywords \"%s%s\"\n" % (v, r.choice(["", "", "", " ", "\t", "  "])))
 
     def program(self):
         r = self.r
@@ -124,6 +124,11 @@ FIXED = [
     ("`begin_keywords \"1364-2001\"\n`resetall\nmodule m; wire logic; endmodule\n`end_keywords\n", True),
     ("`begin_keywords \"1364-2001\"\n`begin_keywords \"1800-2017\"\n`resetall\n`end_keywords\nmodule m; wire logic; endmodule\n`end_keywords\n", True),
     ("`begin_keywords \"1364-2001\"\n`resetall\n`end_keywords\nmodule m; wire logic; endmodule\n", False),
+    # white space between the specifier and the closing quote (the keyword lexer takes trailing white space): the same set
+    ("`begin_keywords \"1364-2001 \"\nmodule m; wire logic; endmodule\n`end_keywords\n", True),
+    ("`begin_keywords \"1800-2005\t \"\nmodule m; wire checker; endmodule\n`end_keywords\n", True),
+    ("`begin_keywords \"1364-2001\"\n`begin_keywords \"1800-2005 \"\nmodule m; reg logic; endmodule\n`end_keywords\n`end_keywords\n", False),
+    ("`begin_keywords \"1364-2001\"\n`begin_keywords \"1800-2005 \"\n`end_keywords\nmodule m; reg logic; endmodule\n`end_keywords\nmodule n; reg logic; endmodule\n", False),
     ("`resetall\nmodule module; endmodule\n", False), ("`define X 1\nmodule m; wire wire; endmodule\n", False),
     ("`timescale 1ns/1ps\n`celldefine\nmodule m; reg always; endmodule\n", False),
 ]
